@@ -58,6 +58,7 @@ func (s *Server) aofshrink() {
 	s.mu.Unlock()
 
 	defer func() {
+		defer s.verifShrinkGate("done", "", "")
 		s.mu.Lock()
 		s.shrinking = false
 		s.shrinklog = nil
@@ -65,6 +66,7 @@ func (s *Server) aofshrink() {
 		log.Infof("aof shrink ended %v", time.Since(start))
 	}()
 
+	s.verifShrinkGate("start", "", "")
 	err := func() error {
 		f, err := os.Create(s.opts.AppendFileName + "-shrink")
 		if err != nil {
@@ -83,6 +85,7 @@ func (s *Server) aofshrink() {
 					break
 				}
 				keysdone = true
+				s.verifShrinkGate("keys", nextkey, "")
 				func() {
 					s.mu.Lock()
 					defer s.mu.Unlock()
@@ -110,6 +113,7 @@ func (s *Server) aofshrink() {
 				}
 
 				// load more objects
+				s.verifShrinkGate("ids", keys[0], nextid)
 				func() {
 					idsdone = true
 					s.mu.Lock()
@@ -188,6 +192,7 @@ func (s *Server) aofshrink() {
 
 		// load hooks
 		// first load the names of the hooks
+		s.verifShrinkGate("hooknames", "", "")
 		var hnames []string
 		func() {
 			s.mu.Lock()
@@ -201,6 +206,7 @@ func (s *Server) aofshrink() {
 		}()
 		var hookHint btree.PathHint
 		for _, name := range hnames {
+			s.verifShrinkGate("hook", name, "")
 			func() {
 				s.mu.Lock()
 				defer s.mu.Unlock()
@@ -250,12 +256,14 @@ func (s *Server) aofshrink() {
 			return err
 		}
 
+		s.verifShrinkGate("final", "", "")
 		// finally grab any new data that may have been written since
 		// the aofshrink has started and swap out the files.
 		return func() error {
 			s.mu.Lock()
 			defer s.mu.Unlock()
 
+			s.verifShrinkCrash("final-locked")
 			// kill all followers connections and close their files. This
 			// ensures that there is only one opened AOF at a time which is
 			// what Windows requires in order to perform the Rename function
@@ -271,6 +279,7 @@ func (s *Server) aofshrink() {
 			// flush the aof buffer
 			s.flushAOF(false)
 
+			s.verifShrinkCrash("before-append")
 			aofbuf = aofbuf[:0]
 			for _, values := range s.shrinklog {
 				// append the values to the aof buffer
@@ -288,9 +297,11 @@ func (s *Server) aofshrink() {
 			if _, err := f.Write(aofbuf); err != nil {
 				return err
 			}
+			s.verifShrinkCrash("after-append")
 			if err := f.Sync(); err != nil {
 				return err
 			}
+			s.verifShrinkCrash("after-sync")
 			// we now have a shrunken aof file that is fully in-sync with
 			// the current dataset. let's swap out the on disk files and
 			// point to the new file.
@@ -300,19 +311,24 @@ func (s *Server) aofshrink() {
 			if err := s.aof.Close(); err != nil {
 				log.Fatalf("shrink live aof close fatal operation: %v", err)
 			}
+			s.verifShrinkCrash("after-close-live")
 			if err := f.Close(); err != nil {
 				log.Fatalf("shrink new aof close fatal operation: %v", err)
 			}
+			s.verifShrinkCrash("after-close-new")
 			if err := os.Rename(s.opts.AppendFileName, s.opts.AppendFileName+"-bak"); err != nil {
 				log.Fatalf("shrink backup fatal operation: %v", err)
 			}
+			s.verifShrinkCrash("after-rename-bak")
 			if err := os.Rename(s.opts.AppendFileName+"-shrink", s.opts.AppendFileName); err != nil {
 				log.Fatalf("shrink rename fatal operation: %v", err)
 			}
+			s.verifShrinkCrash("after-rename-live")
 			s.aof, err = os.OpenFile(s.opts.AppendFileName, os.O_CREATE|os.O_RDWR, 0600)
 			if err != nil {
 				log.Fatalf("shrink openfile fatal operation: %v", err)
 			}
+			s.verifShrinkCrash("after-reopen")
 			var n int64
 			n, err = s.aof.Seek(0, 2)
 			if err != nil {
@@ -321,6 +337,7 @@ func (s *Server) aofshrink() {
 			s.aofsz = int(n)
 
 			os.Remove(s.opts.AppendFileName + "-bak") // ignore error
+			s.verifShrinkCrash("after-remove-bak")
 
 			return nil
 		}()
